@@ -472,6 +472,137 @@ def run_coalesced(ctx, model, scn, seed):
     return probs, diffs, observed
 
 
+# ---------------------------------------------------------------- two incoming reads in flight at once
+# Thread 0 is inside the application callback for frame A (the callback waits), thread 1 hands in frame B;
+# then A's callback raises (or returns).  Model: the flush lock site U(noise) serialises the two deliveries:
+# thread 1 blocks on it, and once thread 0 has unwound (lock released on raise) it delivers B itself.
+class Job(object):
+    def __init__(self, fn):
+        self.box, self.ev = {}, threading.Event()
+        self.t = threading.Thread(target=self._run, args=(fn,))
+        self.t.daemon = True
+        self.t.start()
+
+    def _run(self, fn):
+        try:
+            self.box["r"] = fn()
+        except BaseException as e:
+            self.box["exc"] = e
+        self.ev.set()
+
+    def wait(self, timeout):
+        if not self.ev.wait(timeout):
+            return "blocked", None
+        if "exc" in self.box:
+            return "error", self.box["exc"]
+        return "done", self.box["r"]
+
+
+def gen_concurrent(ctx):
+    sc = []
+    for fail in (True, False):
+        for second in ("ack", "iq_ping_from_server"):
+            sc.append({"cause": "concurrent", "first_fails": fail, "second": second, "pre": 0, "reconnect": False,
+                       "dir": "up", "occ": 0, "op": ["recv", "ack"], "layer": TOP})
+    return sc
+
+
+def run_concurrent(ctx, model, scn, seed):
+    from .. import c12rig
+    rig = c12rig.Rig(ctx.scratch, seed=seed)
+    probs, diffs, observed = [], [], []
+    ins = Instr(rig)
+    try:
+        a_bytes, a_id = rig.recv_frame("ack")
+        b_bytes, b_id = rig.recv_frame(scn["second"])
+        entered, go = threading.Event(), threading.Event()
+        rig.top.block_ids[a_id] = (entered, go, scn["first_fails"])
+        top0 = len(rig.top.seen_ids)
+
+        def snap(phase, st, r):
+            locks = rig.lock_table()
+            observed.append({"phase": phase, "state": st, "outcome": (r or {}).get("outcome") if st == "done" else st,
+                             "exc": (r or {}).get("exc") if st == "done" else None,
+                             "wire_frames": (r or {}).get("wire_frames", 0) if st == "done" else 0,
+                             "held": sorted(k for k, v in locks.items() if v)})
+        ins.begin_op()
+        j0 = Job(lambda: rig.feed(a_bytes))
+        if not entered.wait(3.0):
+            probs.append("frame A never reached the application callback")
+            go.set()
+            return probs, diffs, observed
+        snap("A inside the application callback", "paused", None)
+        j1 = Job(lambda: rig.feed(b_bytes))
+        st1, r1 = j1.wait(0.4)
+        snap("B handed in while A is being delivered", st1, r1)
+        go.set()
+        st0, r0 = j0.wait(3.0)
+        snap("A's callback %s" % ("raises" if scn["first_fails"] else "returns"), st0, r0)
+        if st1 != "done":
+            st1, r1 = j1.wait(3.0)
+        snap("B's read completes", st1, r1)
+        log = [list(x) for x in ins.log]
+        # ---- oracle on the implementation
+        want0 = "raise" if scn["first_fails"] else "ok"
+        if st0 != "done" or r0["outcome"] != want0:
+            probs.append("read A: %s %s, expected outcome %s" % (st0, r0 and r0.get("outcome"), want0))
+        if st1 != "done":
+            probs.append("read B never finished: a later incoming frame blocks forever")
+        elif r1["outcome"] != "ok":
+            probs.append("read B raised %s although nothing failed in it" % r1.get("exc"))
+        time.sleep(0.05)
+        got = rig.top.seen_ids[top0:]
+        if scn["second"] == "ack":
+            if got != [a_id, b_id]:
+                probs.append("application saw %s; frame B (%s) handed in during A's failing delivery must be delivered "
+                             "exactly once after it" % (got, b_id))
+        else:
+            n_pong = sum(o["wire_frames"] for o in observed)
+            if got != [a_id] or n_pong != 1:
+                probs.append("server ping handed in during A's delivery: %d pong(s) on the wire, application saw %s"
+                             % (n_pong, got))
+        held = sorted(k for k, v in rig.lock_table().items() if v)
+        if held:
+            probs.append("locks stay held afterwards: %s" % held)
+        if rig.noise._incoming_segments_queue.qsize():
+            probs.append("%d segment(s) left in the noise layer's incoming queue" % rig.noise._incoming_segments_queue.qsize())
+        w = Worker()
+        stf, rf = w.run(lambda: rig.op_recv("ack"), TIMEOUT)
+        w.stop()
+        if stf != "done" or rf["outcome"] != "ok" or len(rf["top"]) != 1:
+            probs.append("follow-up incoming frame not processed normally: %s %s" % (stf, rf))
+        # ---- model (phases)
+        if model is not None:
+            kind_b = KIND_PING if scn["second"] == "iq_ping_from_server" else KIND_DEFAULT
+            ops = [[0, U(0), KIND_DEFAULT, []], [1, U(0), kind_b, []]]
+            phases = [[0, 1, U(TOP)], [1, 0, 0], [0, 2 if scn["first_fails"] else 0, 0], [1, 0, 0]]
+            r = model.call("run_c12_phases", [build_table(True, True), 2, ops, phases])
+            if isinstance(r, tuple):
+                diffs.append("model run failed: %r" % (r,))
+            else:
+                m_out = [{0: "ok", 1: "raise", 2: "blocked", 3: "fuel", 4: "paused"}[ph[0]] for ph in r]
+                i_out = ["paused", observed[1]["outcome"], observed[2]["outcome"], observed[3]["outcome"]]
+                if m_out != i_out:
+                    diffs.append("per phase: model %s, implementation %s" % (m_out, i_out))
+                m_locks = [sorted(k for k, v in lockrow_to_table(ph[1]).items() if v) for ph in r]
+                i_locks = [o["held"] for o in observed]
+                if m_locks != i_locks:
+                    diffs.append("locks held per phase: model %s, implementation %s" % (m_locks, i_locks))
+                m_log = sorted(json.dumps(list(e)) for ph in r for e in (node_to_entry(x) for x in ph[2]) if e is not None)
+                if m_log != sorted(json.dumps(e) for e in log):
+                    diffs.append("layers entered (both reads): model %s, implementation %s" % (m_log, sorted(json.dumps(e) for e in log)))
+    finally:
+        try:
+            go.set()
+        except Exception:
+            pass
+        try:
+            rig.close()
+        except Exception:
+            pass
+    return probs, diffs, observed
+
+
 # ---------------------------------------------------------------- comparison
 OUTCOME = {0: "ok", 1: "raise", 2: "blocked", 3: "model_fuel"}
 
@@ -656,6 +787,32 @@ def run(ctx):
                                                               "observed": observed}, found_input=False)
         if idx % 17 == 3:
             ctx.add_sample({"scenario": scn, "reads": observed[:6]}, limit=8)
+    n_conc = 0
+    for idx, scn in enumerate(gen_concurrent(ctx)):
+        try:
+            probs, diffs, observed = run_concurrent(ctx, model, scn, 1000 + idx)
+        except Exception as e:
+            ctx.violation("harness:rig_failed", {"scenario": scn, "error": "%s: %s" % (e.__class__.__name__, e)},
+                          found_input=False)
+            n_corr += 1
+            continue
+        n_conc += 1
+        evaluations += 1
+        ops_total += 2
+        by_cause["concurrent"] = by_cause.get("concurrent", 0) + 1
+        distinct.add(json.dumps(["concurrent", scn["first_fails"], scn["second"]]))
+        if probs:
+            n_oracle += 1
+            ctx.violation("oracle:incoming_frame_stuck_behind_failed_delivery",
+                          {"scenario": scn, "seed": 1000 + idx, "problems": probs, "observed": observed,
+                           "model_diffs": diffs})
+        elif diffs:
+            n_corr += 1
+            ctx.violation("correspondence:C12.concurrent_reads", {"scenario": scn, "seed": 1000 + idx, "diffs": diffs,
+                                                                  "observed": observed}, found_input=False)
+        if idx == 0:
+            ctx.add_sample({"scenario": scn, "phases": observed}, limit=9)
+    ctx.coverage["concurrent_read_cases"] = n_conc
     ctx.coverage["coalesced_cases"] = n_coal
     ctx.coverage["coalesced_cases_with_a_raising_read"] = n_coal_fail
     if model:
@@ -693,8 +850,9 @@ def replay(ctx, data):
     scn = case["scenario"]
     exe = ctx.build_model("C12")
     model = modelrun.Model(exe) if exe else None
-    if scn.get("cause") == "coalesced":
-        probs, diffs, observed = run_coalesced(ctx, model, scn, case.get("seed", 0))
+    if scn.get("cause") in ("coalesced", "concurrent"):
+        fn = run_coalesced if scn["cause"] == "coalesced" else run_concurrent
+        probs, diffs, observed = fn(ctx, model, scn, case.get("seed", 0))
         if model:
             model.close()
         print("scenario:", json.dumps(scn))
